@@ -412,7 +412,9 @@ def am(cx):
             me.attrs["_new_buffer"] = Builtin("_new_buffer", _nb)
             out["me"] = me
             me.attrs["copy_to_native"] = Builtin("copy_to_native", lambda *a, **k: I.effects.append(Effect("copy_to_native", args=a, kwargs=k, cap=I.getattr(me, "capacity"), src=I.getattr(me, "buffer"))))
+            I.__dict__["max_activations"] = {}
             out["ret"] = I.call(I.getattr(me, "allocate"), [Sym(z)], {"align": sc["align"]})
+            out["depth"] = I.__dict__.get("max_activations", {}).get("XBuffer.allocate", 0)
             out["storage"] = I.getattr(me, "buffer")
             out["chunks"] = [(topoly(I.getattr(c, "start")), topoly(I.getattr(c, "end"))) for c in I.getattr(me, "chunks")]
             out["cap"] = topoly(I.getattr(me, "capacity"))
@@ -474,6 +476,8 @@ def am(cx):
                     kw[nm] = v
                 if topoly(kw.get("nbytes")) != oldcap or topoly(kw.get("dest_offset")) != Poly.const(0) or topoly(kw.get("source_offset")) != Poly.const(0):
                     probs.append(f"growth copies nbytes={kw.get('nbytes')!r} from {kw.get('source_offset')!r} to {kw.get('dest_offset')!r}; every stored byte (0..{oldcap!r}) must be kept")
+            if len(wgrow) >= 2 and out.get("depth", 0) > 2:
+                probs.append(f"{out['depth']} nested activations of allocate for {len(wgrow)} growth steps: the retry recurses once per step, so a request that needs many small steps (large request, small grow_step) exhausts the interpreter's stack instead of being served")
             if wgrow and getattr(out.get("storage"), "tag", None) != prev_storage:
                 probs.append(f"after growing the buffer still uses {getattr(out.get('storage'), 'tag', None)}, the bytes are in {prev_storage}")
         if probs:
